@@ -174,8 +174,10 @@ def _expected(polkind, nocompile):
 # ----------------------------------------------------------------------------------
 # located source lines
 # ----------------------------------------------------------------------------------
-FUNCS = {"set_policy", "update_policy", "_install_policy", "_recompute_etag", "clear_cache",
-         "_evaluate_core_async", "_decide_async", "_cache_key", "_current_policy_version"}
+# every function of engine.py is traced: helpers may be extracted, inlined or renamed without changing behaviour
+# (formerly the fixed set set_policy, update_policy, _install_policy, _recompute_etag, clear_cache,
+# _evaluate_core_async, _decide_async, _cache_key, _current_policy_version)
+FUNCS = None
 
 # the modelled accesses to shared state, as text patterns of the source lines performing them
 COARSE = [
@@ -208,11 +210,13 @@ def coarse_filter(func, text, is_exit):
 
 
 # line-level search: every line that mentions the shared state at all
-_LINE_RX = re.compile(r"policy|_compiled|_state_lock|\block\b|cache|etag|version")
+_LINE_RX = re.compile(r"policy|_compiled|lock|cache|etag|version")
 
 
 def line_filter(func, text, is_exit):
-    return bool(_LINE_RX.search(text))
+    # every `with` line is a stop point whatever it names: the scheduler must see a lock acquisition before the
+    # thread runs into it (otherwise a held lock is only noticed by a time-out of seconds per schedule)
+    return bool(_LINE_RX.search(text)) or text.lstrip().startswith(("with ", "async with "))
 
 
 def engine_file():
